@@ -249,6 +249,11 @@ class PathResolver:
                     return r
             if c[0] == 'constdef' and c[3] is None:
                 return self.g.generic_const(frame, c)
+            if c[0] == 'const' and c[1] is None and o["const"].get("k") == "generic" and frame.call_term is not None:
+                # the single const generic parameter of an inlined helper, bound at the call (`queue_reply::<16>`)
+                cargs = [a for a in frame.call_term["func"].get("args", []) if isinstance(a, dict) and a.get("constarg")]
+                if len(cargs) == 1 and str(cargs[0].get("s", "")).isdigit():
+                    return ('const', int(cargs[0]["s"]), c[2])
             return c
         return ('const', None, '?')
 
